@@ -92,6 +92,12 @@ def smc_export_job(args):
 
 
 def smc_export(base, model, params, name):
+    from vlib import dir_lock
+    with dir_lock(workdir(base, 'smc_' + hashlib.sha256(json.dumps([model, params], sort_keys=True).encode()).hexdigest()[:12])):
+        return _smc_export_unlocked(base, model, params, name)
+
+
+def _smc_export_unlocked(base, model, params, name):
     key = json.dumps([model, params], sort_keys=True)
     d = workdir(base, 'smc_' + hashlib.sha256(key.encode()).hexdigest()[:12])
     done = os.path.join(d, 'done.json')
@@ -128,6 +134,13 @@ def smc_export(base, model, params, name):
 
 
 def ssim(base, model, params, num, depth, seed, name):
+    from vlib import dir_lock
+    key = json.dumps([model, params, num, depth, seed], sort_keys=True)
+    with dir_lock(workdir(base, 'ssim_' + hashlib.sha256(key.encode()).hexdigest()[:12])):
+        return _ssim_unlocked(base, model, params, num, depth, seed, name)
+
+
+def _ssim_unlocked(base, model, params, num, depth, seed, name):
     key = json.dumps([model, params, num, depth, seed], sort_keys=True)
     d = workdir(base, 'ssim_' + hashlib.sha256(key.encode()).hexdigest()[:12])
     done = os.path.join(d, 'done.json')
